@@ -99,6 +99,7 @@ pub fn fill_common(rep: &mut CaseReport, res: &SessionResult, world: &World) {
     // frames on channels whose close handshake was complete (a real broker answers 504): counted here,
     // judged by the scenarios whose property speaks about it (C09)
     rep.count("probe.frames_on_closed_channel", world.broker.client_violations.len() as u64);
+    rep.count("probe.handles_across_channels", res.hist.notes.iter().filter(|n| n.starts_with("xvia-other") || n.starts_with("qvia-other")).count() as u64);
     match &res.run.outcome {
         Outcome::Finished => {}
         Outcome::StepCap => rep.inconclusive = Some("step cap".to_string()),
